@@ -194,6 +194,178 @@ theorem C05_empty_then_restored_recomputes (s : St) (avs : String) (i1 i2 : AvsI
   obtain ⟨e0, e1, _⟩ := C05_self_value_formula (updateVotingPower s avs i1) avs i2 cfgs m2 h2 c2 n2 es' v hl
   rw [e0, e1, (C05_empty_asset_list_zeroes_entries s avs i1 m1 h1 c1 n1).2.1]
 
+/-! ## several AVSs ending the same epoch: the failure of one does not concern the others
+
+`hookLoop` is the `for _, avs := range avsList` loop of AfterEpochEnd with its error branch
+(`continue`); `epochEnd` runs it over `selected`. The theorems below are by induction over the AVS
+list and make no assumption at all about the other AVSs of the list. -/
+
+/-- the loop is the left fold, over the AVS list, of "UpdateVotingPower with its error swallowed" -/
+theorem C05_hook_loop_is_fold (inputs : List (String × AvsIn)) (l : List String) (s : St) :
+    hookLoop inputs s l =
+      l.foldl (fun s avs =>
+        match find? inputs avs with
+        | some i => updateVotingPower s avs i
+        | none => s) s :=
+  hookLoop_eq_foldl inputs l s
+
+/-- UpdateVotingPower of one AVS never touches the stored values of another one -/
+theorem C05_update_frames_other_avs (s : St) (avs a : String) (i : AvsIn) (h : a ≠ avs) :
+    getD (updateVotingPower s avs i).entries a [] = getD s.entries a [] ∧
+    getD (updateVotingPower s avs i).avsVal a 0 = getD s.avsVal a 0 :=
+  updateVotingPower_frame s avs a i h
+
+/-- EVERY AVS of the list whose own update does not fail ends the epoch hook with the spec values,
+REGARDLESS of the other AVSs of the list (failing or not, before or after it): its entries are the
+result of its own operator loop on the pools/prices of this epoch end, the operator set is
+unchanged, every entry carries the closed-formula total / self / active values, and the AVS value
+is the sum of the active values. -/
+theorem C05_every_nonfailing_avs_recomputed (inputs : List (String × AvsIn)) (s : St) (l : List String)
+    (a : String) (i : AvsIn) (cfgs : List (String × AssetCfg)) (m : Int)
+    (hmem : a ∈ l) (hin : find? inputs a = some i)
+    (hok : i.assetsOk = true) (hc : i.cfgs = some cfgs) (hm : i.minSelf = some m)
+    (es' : List (String × Opted)) (v : Int)
+    (hl : updateLoop cfgs m i.opAssets (getD s.entries a []) = .ok (es', v)) :
+    getD (hookLoop inputs s l).entries a [] = es' ∧
+    getD (hookLoop inputs s l).avsVal a 0 = sumActive es' ∧
+    es'.map (·.1) = (getD s.entries a []).map (·.1) ∧
+    ∀ q ∈ es', q.2.total = specTotal cfgs (getD i.opAssets q.1 []) ∧
+               q.2.self = specSelf cfgs (getD i.opAssets q.1 []) ∧
+               q.2.active = (if m ≤ q.2.self then q.2.total else 0) := by
+  obtain ⟨e1, e2, e3⟩ := updateLoop_spec cfgs m i.opAssets _ _ _ hl
+  have hK : ∀ es : List (String × Opted), es.map (·.1) = (getD s.entries a []).map (·.1) →
+      updateLoop cfgs m i.opAssets es = .ok (es', v) := by
+    intro es hes
+    rw [updateLoop_keys_only cfgs m i.opAssets es (getD s.entries a []) hes]; exact hl
+  obtain ⟨r1, r2⟩ := hookLoop_recomputes inputs a i cfgs m hin hok hc hm _ es' v hK l s rfl (Or.inl hmem)
+  exact ⟨r1, by rw [r2, e2], e1, e3⟩
+
+/-- the same at an epoch end: every AVS selected by GetEpochEndAVSs (identifier matches, from the
+epoch preceding its starting epoch on) whose own update does not fail is recomputed -/
+theorem C05_epoch_end_recomputes_every_selected_avs (regs : List AvsReg) (inputs : List (String × AvsIn)) (s : St)
+    (id : String) (n : Int) (r : AvsReg) (hr : r ∈ regs) (hid : r.epochId = id) (hn : r.startingEpoch - 1 ≤ n)
+    (i : AvsIn) (cfgs : List (String × AssetCfg)) (m : Int) (hin : find? inputs r.addr = some i)
+    (hok : i.assetsOk = true) (hc : i.cfgs = some cfgs) (hm : i.minSelf = some m)
+    (es' : List (String × Opted)) (v : Int)
+    (hl : updateLoop cfgs m i.opAssets (getD s.entries r.addr []) = .ok (es', v)) :
+    getD (epochEnd regs inputs s id n).entries r.addr [] = es' ∧
+    getD (epochEnd regs inputs s id n).avsVal r.addr 0 = sumActive es' ∧
+    ∀ q ∈ es', q.2.total = specTotal cfgs (getD i.opAssets q.1 []) ∧
+               q.2.self = specSelf cfgs (getD i.opAssets q.1 []) ∧
+               q.2.active = (if m ≤ q.2.self then q.2.total else 0) := by
+  have hsel : r.addr ∈ selected regs id n := (C05_selected_iff regs id n r.addr).2 ⟨r, hr, rfl, hid, hn⟩
+  obtain ⟨a1, a2, _, a4⟩ := C05_every_nonfailing_avs_recomputed inputs s (selected regs id n) r.addr i cfgs m
+    hsel hin hok hc hm es' v hl
+  exact ⟨a1, a2, a4⟩
+
+/-- an AVS whose prices / decimals / minimum self-delegation cannot be resolved keeps exactly its
+stored values through the whole hook, whatever the other AVSs do -/
+theorem C05_failing_avs_keeps_values (inputs : List (String × AvsIn)) (s : St) (l : List String) (a : String)
+    (i : AvsIn) (hin : find? inputs a = some i) (hok : i.assetsOk = true)
+    (hf : i.cfgs = none ∨ i.minSelf = none) :
+    getD (hookLoop inputs s l).entries a [] = getD s.entries a [] ∧
+    getD (hookLoop inputs s l).avsVal a 0 = getD s.avsVal a 0 :=
+  hookLoop_failing_keeps inputs a i hin hok hf l s
+
+/-- the statement of `C05_every_nonfailing_avs_recomputed` for a loop whose error branch is `act` -/
+def C05_loop_isolates (act : ErrAction) : Prop :=
+  ∀ (inputs : List (String × AvsIn)) (s : St) (l : List String) (a : String) (i : AvsIn)
+    (cfgs : List (String × AssetCfg)) (m : Int) (es' : List (String × Opted)) (v : Int),
+    a ∈ l → find? inputs a = some i → i.assetsOk = true → i.cfgs = some cfgs → i.minSelf = some m →
+    updateLoop cfgs m i.opAssets (getD s.entries a []) = .ok (es', v) →
+    getD (hookLoopWith act inputs s l).entries a [] = es'
+
+theorem C05_continue_isolates : C05_loop_isolates .next := by
+  intro inputs s l a i cfgs m es' v hmem hin hok hc hm hl
+  exact (C05_every_nonfailing_avs_recomputed inputs s l a i cfgs m hmem hin hok hc hm es' v hl).1
+
+private def cfgsU : List (String × AssetCfg) := [("usdt", { price := 1, priceDec := 0, decimals := 6 })]
+private def poolsU : List (String × List (String × AssetState)) :=
+  [("op", [("usdt", { totalAmount := 80000000, totalShare := 80000000 * PREC, operatorShare := 80000000 * PREC })])]
+private def inputsU : List (String × AvsIn) :=
+  [("a", { assetsOk := true, cfgs := none, minSelf := some 0, opAssets := poolsU }),
+   ("b", { assetsOk := true, cfgs := some cfgsU, minSelf := some 0, opAssets := poolsU })]
+private def stU : St :=
+  { entries := [("a", [("op", { self := 7, total := 7, active := 7 })]), ("b", [("op", { self := 0, total := 0, active := 0 })])],
+    avsVal := [("a", 7)] }
+
+/-- with `return` (or `break`) in the error branch the statement is false: AVS "a" (no price for one
+of its assets) fails first and AVS "b", healthy, keeps its opt-in zeros although its operator holds
+80 USDT — this is what makes the loop shape a proof obligation (`C05_tie_hook_error_branch`). -/
+theorem C05_return_on_error_does_not_isolate : ¬ C05_loop_isolates .stop := by
+  intro h
+  have := h inputsU stU ["a", "b"] "b" _ cfgsU 0
+    [("op", { self := 80 * PREC, total := 80 * PREC, active := 80 * PREC })] (80 * PREC)
+    (by decide) rfl rfl rfl rfl rfl
+  revert this
+  decide
+
+example : getD (hookLoop inputsU stU ["a", "b"]).entries "b" [] =
+    [("op", { self := 80 * PREC, total := 80 * PREC, active := 80 * PREC })] ∧
+    getD (hookLoop inputsU stU ["a", "b"]).entries "a" [] = [("op", { self := 7, total := 7, active := 7 })] ∧
+    getD (hookLoop inputsU stU ["a", "b"]).avsVal "b" 0 = 80 * PREC := by decide
+
+/-! ## the self value after a slash (share price ≠ 1) -/
+
+/-- the amount the self value is computed from is the TOKEN equivalent of the operator's own share:
+floor(operator share × pool amount / total share) — not the share itself; the two agree only while
+the pool has never been slashed -/
+theorem C05_self_tokens_is_token_equivalent (st : AssetState) (h0 : 0 ≤ st.operatorShare)
+    (h1 : st.operatorShare ≤ st.totalShare) (h2 : 0 < st.totalShare) (h3 : 0 ≤ st.totalAmount) :
+    selfTokens st = (st.operatorShare * st.totalAmount) / st.totalShare ∧
+    0 ≤ selfTokens st ∧ selfTokens st ≤ st.totalAmount :=
+  ⟨selfTokens_eq_floor st h0 h1 h2 h3, selfTokens_le_amount st h0 h1 h2 h3⟩
+
+/-- pools as the ledger keeps them: 0 ≤ operator share ≤ total share, amount ≥ 0, and an emptied
+pool (total share 0) has amount 0 -/
+def PoolOk (st : AssetState) : Prop :=
+  0 ≤ st.operatorShare ∧ st.operatorShare ≤ st.totalShare ∧ 0 ≤ st.totalAmount ∧
+  (st.totalShare = 0 → st.totalAmount = 0)
+
+theorem selfTokens_bounds (st : AssetState) (h : PoolOk st) : 0 ≤ selfTokens st ∧ selfTokens st ≤ st.totalAmount := by
+  obtain ⟨h0, h1, h3, h4⟩ := h
+  by_cases hz : st.totalShare = 0
+  · have ha := h4 hz
+    have ho : st.operatorShare = 0 := by omega
+    have : selfTokens st = 0 := by
+      simp [selfTokens, tokensFromShares, Dec.gt, Dec.isZero, hz, ha, ho]
+    omega
+  · exact selfTokens_le_amount st h0 h1 (by omega) h3
+
+/-- the self value never exceeds the total value (slashed or not): the self tokens are at most the
+pool amount and the truncating division is monotone -/
+theorem C05_self_le_total (cfgs : List (String × AssetCfg)) (hp : ∀ c ∈ cfgs, 0 ≤ c.2.price)
+    (assets : List (String × AssetState)) (ha : ∀ a ∈ assets, PoolOk a.2) :
+    0 ≤ specSelf cfgs assets ∧ specSelf cfgs assets ≤ specTotal cfgs assets := by
+  induction assets with
+  | nil => simp [specSelf, specTotal]
+  | cons p rest ih =>
+    obtain ⟨a, st⟩ := p
+    obtain ⟨i1, i2⟩ := ih (fun x hx => ha x (by simp [hx]))
+    have hst := ha (a, st) (by simp)
+    obtain ⟨b1, b2⟩ := selfTokens_bounds st hst
+    simp only [specSelf, specTotal]
+    split
+    · omega
+    · rename_i c hf
+      have hc := hp (a, c) (find?_mem cfgs a c hf)
+      have m1 := usdValue_mono (selfTokens st) st.totalAmount c.price c.price c.decimals c.priceDec b1 b2 hc (Int.le_refl _)
+      have m0 := usdValue_nonneg (selfTokens st) c.price c.decimals c.priceDec b1 hc
+      omega
+
+example : PoolOk { totalAmount := 135000000, totalShare := 150000000 * PREC, operatorShare := 100000000 * PREC } := by
+  unfold PoolOk; decide
+example : selfTokens { totalAmount := 135000000, totalShare := 150000000 * PREC, operatorShare := 100000000 * PREC } = 90000000 := by
+  decide
+
+/-- a pool slashed by 10 % (amount 90, shares still 100): the self value follows the tokens (90),
+so an AVS minimum of 100 makes the operator inactive; with the share figure (100) it would stay
+active -/
+example : updateLoop cfgsU (100 * PREC)
+    [("op", [("usdt", { totalAmount := 90000000, totalShare := 100000000 * PREC, operatorShare := 100000000 * PREC })])]
+    [("op", { self := 100 * PREC, total := 100 * PREC, active := 100 * PREC })] =
+    .ok ([("op", { self := 90 * PREC, total := 90 * PREC, active := 0 })], 0) := by rfl
+
 /-! ## non-vacuity: two assets (6 / 18 decimals, price decimals 0 / 8), one outside the AVS's list -/
 private def cfgs0 : List (String × AssetCfg) :=
   [("usdt", { price := 1, priceDec := 0, decimals := 6 }), ("eth", { price := 250000000000, priceDec := 8, decimals := 18 })]
